@@ -26,9 +26,9 @@ FILTERS = [{}, {"inplay": True}, {"inplay": False}, {"seconds_to_start": 30}, {"
 
 
 def plan(tier, seed):
-    n = 700 if tier == "quick" else 20000
+    n = 2000 if tier == "quick" else 30000
     cases = [{"mode": "delivery", "seed": seed, "idx": i} for i in range(n)]
-    d = 48 if tier == "quick" else 1600
+    d = 64 if tier == "quick" else 1600
     cases += [{"mode": "determinism", "seed": seed, "idx": i, "runs": 3 if tier == "quick" else 4} for i in range(d)]
     return cases
 
